@@ -235,7 +235,7 @@ def normal_exit(run, fs, res, rep):
         else:
             # proved from the named earlier steps alone (each of them was proved on this path): a small query
             saved = run.pc
-            run.pc = [step_facts[u] for u in uses]
+            run.pc = symex.PC(run, [step_facts[u] for u in uses])
             run.oblige(f"{key}/step/{cname}", g, kind='step', clause='step:' + cname, function=key)
             run.pc = saved
         step_facts[cname] = g
